@@ -24,6 +24,8 @@ use super::htx;
 #[derive(Debug)]
 pub struct FileDbXxxInner<KT: DbMapKeyType> {
     dirty: bool,
+    /// flushed to the OS by flush(), but not yet synchronized to storage.
+    unsynced: bool,
     //
     key_file: key::KeyFile<KT>,
     val_file: val::ValueFile,
@@ -47,6 +49,7 @@ impl<KT: DbMapKeyType> FileDbXxxInner<KT> {
             val_file,
             htx_file,
             dirty: true,
+            unsynced: false,
             _phantom: std::marker::PhantomData,
         })
     }
@@ -238,28 +241,31 @@ impl<KT: DbMapKeyType> DbXxxBase for FileDbXxxInner<KT> {
             self.key_file.flush()?;
             self.htx_file.flush()?;
             self.dirty = false;
+            self.unsynced = true;
         }
         Ok(())
     }
     #[inline]
     fn sync_all(&mut self) -> Result<()> {
-        if self.is_dirty() {
+        if self.is_dirty() || self.unsynced {
             // save all data and meta
             self.val_file.sync_all()?;
             self.key_file.sync_all()?;
             self.htx_file.sync_all()?;
             self.dirty = false;
+            self.unsynced = false;
         }
         Ok(())
     }
     #[inline]
     fn sync_data(&mut self) -> Result<()> {
-        if self.is_dirty() {
+        if self.is_dirty() || self.unsynced {
             // save all data
             self.val_file.sync_data()?;
             self.key_file.sync_data()?;
             self.htx_file.sync_data()?;
             self.dirty = false;
+            self.unsynced = false;
         }
         Ok(())
     }
